@@ -81,7 +81,8 @@ def run_for(prop, tier, seed):
     for module, cfg in PLAN[prop][tier]:
         if not os.path.exists(os.path.join(SPEC, cfg)):
             continue
-        r = run_config(module, cfg, coverage=(tier == 'thorough'))
+        # per-action coverage (vacuity guard) on the configurations that finish quickly; the big ones run without it
+        r = run_config(module, cfg, coverage=(tier == 'thorough' and 'big' not in cfg and 'fwd' not in cfg and 'g1' not in cfg and 'par' not in cfg and 'live' not in cfg), timeout=10800)
         res['configs'].append({k: v for k, v in r.items() if k != 'tail'})
         res['states'] += r['states']
         res['transitions'] += r['transitions']
